@@ -325,6 +325,105 @@ Proof.
   rewrite (live_ids_all ps Hall) in Hnl. exists cs, c. repeat split; assumption.
 Qed.
 
+(* ---- the two snapshot reads of a pass, with the cluster changing in between ---- *)
+
+(* For EVERY trace of cluster states (any environment events at any instants) and any two read
+   instants with the NodeClaim list not after the provider list: a deleted claim was observed
+   Registered at [ti], and at some instant at or after [ti] the provider did not list its instance
+   as live. *)
+Lemma gc_pass_sound_l (tr : nat -> gworld) ti tj nodes nf name : (ti <= tj)%nat ->
+  In name (fst (gc_pass tr ti tj nodes nf)) ->
+  exists c, In c (w_claims (tr ti)) /\ gc_name c = name /\ gc_registered c = true /\
+    exists t, (ti <= t)%nat /\ ~ In (gc_pid c) (live_ids (w_insts (tr t))).
+Proof.
+  intros Hle Hin. unfold gc_pass in Hin.
+  destruct (gc_deleted_inv (mkGc (Some (w_claims (tr ti))) (Some (w_insts (tr tj))) nodes nf)
+              (w_claims (tr ti)) (w_insts (tr tj)) name eq_refl eq_refl Hin)
+    as (c & Hc & Hn & Hcand & _).
+  apply gc_candidate_spec in Hcand. destruct Hcand as (_ & Hr & _ & Hnl).
+  exists c. repeat split; try assumption. exists tj. split; assumption.
+Qed.
+
+(* With the reads in the opposite order this is false: a claim that launches and registers between
+   the provider list (instant 0) and the NodeClaim list (instant 1) is deleted although its instance
+   is listed at every instant from its observation on. *)
+Definition fresh_claim : gclaim := mkGClaim "fresh" true true false "p1" AOk.
+Definition launch_trace (t : nat) : gworld :=
+  match t with O => mkGWorld [] [] | S _ => mkGWorld [fresh_claim] [mkGInst "p1" false] end.
+
+Lemma gc_pass_swapped_refuted_l :
+  exists (tr : nat -> gworld) ti tj nodes nf name, (tj < ti)%nat /\
+    In name (fst (gc_pass tr ti tj nodes nf)) /\
+    forall c, In c (w_claims (tr ti)) -> gc_name c = name ->
+      forall t, (ti <= t)%nat -> In (gc_pid c) (live_ids (w_insts (tr t))).
+Proof.
+  exists launch_trace, 1%nat, O, [mkGNode "p1" false], [], "fresh"%string.
+  split; [lia|]. split; [vm_compute; auto|].
+  intros c [<-|[]] _ t Ht. destruct t as [|t]; [lia|]. vm_compute. auto.
+Qed.
+
+(* the opposite order is only equivalent on a cluster that does not change between the reads *)
+Lemma gc2_swapped_partial_l w nodes nf : gc2_swapped w w nodes nf = gc2 w w nodes nf.
+Proof. reflexivity. Qed.
+
+(* Spec for a pass with an observed read order, over the pass's two instants. *)
+Definition gc2_holds (o : gorder) (w0 w1 : gworld) (nodes : list gnode) (nf : list string) (deleted : list string) : Prop :=
+  forall name, In name deleted -> exists c,
+    In c (w_claims (tl2 w0 w1 (obs_instant o))) /\ gc_name c = name /\ gc_registered c = true /\
+    (exists t, (obs_instant o <= t <= 1)%nat /\ ~ In (gc_pid c) (live_ids (w_insts (tl2 w0 w1 t)))) /\
+    (node_lookup (mkGc None None nodes nf) (gc_pid c) = NotFound \/
+     node_lookup (mkGc None None nodes nf) (gc_pid c) = Found false \/
+     node_lookup (mkGc None None nodes nf) (gc_pid c) = Duplicate).
+
+Lemma absent_after_b_iff o w0 w1 pid : absent_after_b o w0 w1 pid = true <->
+  exists t, (obs_instant o <= t <= 1)%nat /\ ~ In pid (live_ids (w_insts (tl2 w0 w1 t))).
+Proof.
+  destruct o; unfold absent_after_b; simpl.
+  - rewrite orb_true_iff, !negb_true_iff, !mem_false_In. split.
+    + intros [H|H]; [exists O|exists 1%nat]; (split; [lia|exact H]).
+    + intros (t & Ht & H). destruct t as [|[|t]]; [left|right|lia]; exact H.
+  - rewrite negb_true_iff, mem_false_In. split.
+    + intros H. exists 1%nat. split; [lia|exact H].
+    + intros (t & Ht & H). destruct t as [|[|t]]; try lia. exact H.
+Qed.
+
+Lemma gc2_holds_b_iff o w0 w1 nodes nf dl : gc2_holds_b o w0 w1 nodes nf dl = true <-> gc2_holds o w0 w1 nodes nf dl.
+Proof.
+  unfold gc2_holds_b, gc2_holds. cbv zeta. rewrite forallb_forall. split.
+  - intros H name Hin. specialize (H name Hin). apply existsb_exists in H. destruct H as (c & Hc & Hb).
+    rewrite !andb_true_iff in Hb. destruct Hb as [[[Hn Hr] Ha] Hl].
+    exists c. split; [exact Hc|]. split; [apply String.eqb_eq; exact Hn|]. split; [exact Hr|].
+    split; [apply absent_after_b_iff; exact Ha|].
+    destruct (node_lookup (mkGc None None nodes nf) (gc_pid c)) as [[|]| | |]; try discriminate; auto.
+  - intros H name Hin. destruct (H name Hin) as (c & Hc & Hn & Hr & Ha & Hl).
+    apply existsb_exists. exists c. split; [exact Hc|]. rewrite !andb_true_iff.
+    split; [split; [split|]|].
+    + apply String.eqb_eq. exact Hn.
+    + exact Hr.
+    + apply absent_after_b_iff. exact Ha.
+    + destruct Hl as [Hl|[Hl|Hl]]; rewrite Hl; reflexivity.
+Qed.
+
+(* the code's order satisfies it, whatever happens between the reads *)
+Lemma gc2_sound w0 w1 nodes nf : gc2_holds ClaimsFirst w0 w1 nodes nf (fst (gc2 w0 w1 nodes nf)).
+Proof.
+  intros name Hin. unfold gc2, gc_pass in Hin. simpl in Hin.
+  destruct (gc_deleted_inv (mkGc (Some (w_claims w0)) (Some (w_insts w1)) nodes nf)
+              (w_claims w0) (w_insts w1) name eq_refl eq_refl Hin) as (c & Hc & Hn & Hcand & Hd).
+  apply gc_candidate_spec in Hcand. destruct Hcand as (_ & Hr & _ & Hnl).
+  exists c. split; [exact Hc|]. split; [exact Hn|]. split; [exact Hr|]. split.
+  - exists 1%nat. split; [simpl; lia|exact Hnl].
+  - apply gc_one_deletes in Hd. exact Hd.
+Qed.
+
+(* the opposite order does not *)
+Lemma gc2_swapped_refuted_l : exists w0 w1 nodes nf,
+  ~ gc2_holds ProviderFirst w0 w1 nodes nf (fst (gc2_swapped w0 w1 nodes nf)).
+Proof.
+  exists (launch_trace 0), (launch_trace 1), [mkGNode "p1" false], [].
+  intros H. apply gc2_holds_b_iff in H. vm_compute in H. discriminate.
+Qed.
+
 (* ------------------------------------------------------------------ liveness *)
 
 Definition lv_holds (i : lv_in) (deletes : nat) : Prop :=
